@@ -4,17 +4,39 @@ lean/Properties/Cxx.lean) of the theorems whose build + axiom audit is the
 proof obligation of the property; and the evidence level.
 """
 REGISTRY = {
-    "C01": [], "C02": [], "C03": [], "C04": [], "C05": [],
+    "C01": ["no_unauthorized_overdraft", "visible_le_true", "statement_debits_bound", "specSend_debits_bound",
+            "specSendAll_debits_bound", "draw_pulled_bound", "drawAll_pulled_bound", "reconcile_prefix_debits_le",
+            "reconcile_prefix_credits_nonneg", "runSend_fixed_refines", "runSend_all_refines", "parseVars_wf",
+            "RunProgram_ok_runs", "cache_tracks_replay"],
+    "C02": ["postings_are_real", "validAccountName_real", "statement_postings_asset", "specSend_postings_real",
+            "specSendAll_postings_real", "reconcile_positive", "reconcile_never_credits_kept", "reconcile_names",
+            "draw_pulls_nonneg", "drawAll_pulls_nonneg"],
+    "C03": ["fixed_send_exact", "fixed_send_fails_iff_short", "send_zero", "specSend_total", "specSend_fails_iff",
+            "specSend_zero", "draw_err_kinds", "runSend_fixed_refines", "reconcile_total"],
+    "C04": ["send_refines_draw", "sendAll_refines_drawAll", "send_ok_resolves", "sendAll_ok_resolves", "draw_account",
+            "unbounded_gives_all", "draw_total_le_need", "draw_total_le_need_of_resolved", "cap_bounds",
+            "inorder_sequential", "inorder_later_only_if_earlier_exhausted", "drawAll_drains",
+            "sendAll_shape_ok_not_rejected", "sendAll_shape_bad_rejected", "specSend_debits", "reconcile_debits_exact"],
+    "C05": ["receive_refines_distribute", "distribute_conserves", "distClauses_step", "distClauses_nonpositive_cap_skipped",
+            "distribute_inorder_remaining", "distKoD_kept", "specSend_credits", "reconcile_credits"],
     "C06": ["allot_sum", "allot_leftover_lt", "allot_length", "allot_share_formula", "allot_share_bounds",
             "makeAllotment_no_remaining", "makeAllotment_with_remaining", "fillRemaining_sum", "fillRemaining_nonneg",
             "fillRemaining_no_remaining_sum"],
     "C07": ["reconcile_flow_eq_pairing", "reconcile_never_credits_kept", "reconcile_positive", "reconcile_names",
-            "reconcile_merges_adjacent", "reconcile_debits_le_pulled"],
-    "C08": [], "C09": [],
-    "C10": [], "C11": [], "C12": [], "C13": [], "C14": [], "C15": [], "C16": [], "C17": [], "C18": [],
+            "reconcile_merges_adjacent", "reconcile_debits_le_pulled", "reconcile_credits", "reconcile_total",
+            "reconcile_debits_exact", "reconcile_prefix_debits_le", "specSend_flows"],
+    "C08": ["save_visible_balance", "savedBalance_spec", "save_negative_rejected", "cacheGet_cacheSet",
+            "specSend_debits_bound", "specSendAll_debits_bound", "visible_le_true"],
+    "C09": ["run_append", "cache_tracks_replay", "replay_append", "replay_effect", "replay_other_asset",
+            "assocSet_get_same", "assocSet_get_other", "set_tx_meta_effect", "set_account_meta_effect"],
+    "C10": [], "C11": [],
+    "C12": ["run_never_panics", "evalExpr_never_panics", "getBalance_store_failure", "run_preload_failure",
+            "meta_store_failure", "runBalancesQuery_no_call"],
+    "C13": [], "C14": [], "C15": [], "C16": [], "C17": [], "C18": [],
     "C19": [], "C20": [],
 }
 
 # evidence level per property: "proof" only when REGISTRY[pid] is non-empty and carries the property
 LEVEL = {pid: ("proof" if ths else "other") for pid, ths in REGISTRY.items()}
 LEVEL["C20"] = "translation_validation"
+LEVEL["C15"] = "translation_validation"
